@@ -10,7 +10,8 @@ def main():
     subprocess.run([sys.executable, os.path.join(os.path.dirname(__file__), "vxgen.py"), unit, os.environ.get("XRAY_REPO", "/repo"), d], check=True, capture_output=True)
     f = os.path.join(d, "vx_%s.rs" % unit)
     s = open(f).read()
-    i = s.index("\n{\n", s.index("fn " + fn + "("))
+    k = min(x for x in (s.find("fn " + fn + "("), s.find("fn " + fn + "<")) if x >= 0)
+    i = re.compile(r"\n\s*\{\n").search(s, k).start()
     j = s.find("\n// ---- vx:", i)
     if j < 0: j = len(s)
     for m in sys.argv[3:]:
